@@ -169,3 +169,6 @@ def check(ctx, rep):
     keyedrules.order_bearing(ctx, rep, "C10.CONT")
     keyedrules.keyedset_eq(ctx, rep, "C10.CONTSET")
     metarules.deepcopy_memo(ctx, rep, "C10.DC")
+    metarules.field_conversion(ctx, rep, "C10.FIELD")
+    shared.borrow(ctx, rep, "c20", {"C20.BAL": "C10.MODBAL", "C20.INV": "C10.MODINV"})    # deepcopy(x) of values holding modules rests on the balanced dispatch-table patch
+    shared.borrow(ctx, rep, "c18", {"C18.P": "C10.ALIASPATH"})                          # repr / == read alias attributes: a missing target must read as missing, not raise
